@@ -385,8 +385,9 @@ Section Glue.
     match m with None => true | Some st => matches st t end.
 
   (* ---- regex/SegmentedStringMatcher.cpp *)
-  Record segm := mkG { g_negate : bool; g_segs : list (option sm) }.
-  Definition seg_init : segm := mkG false [].
+  (* g_seps: _sepChars is "/" (true) or the empty String left by Clear() (false) *)
+  Record segm := mkG { g_negate : bool; g_segs : list (option sm); g_seps : bool }.
+  Definition seg_init : segm := mkG false [] false.
 
   (* SetPattern(s, isSimple, "/", MUSCLE_NO_LIMIT) -> (object, status ok) *)
   Definition seg_set_pattern (p : list N) (simple : bool) : segm * bool :=
@@ -394,8 +395,8 @@ Section Glue.
       if simple then (match p with c :: t => if c =? c_sp_negate_char then (true, t) else (false, p) | [] => (false, p) end)
       else (false, p) in
     match build_clauses (soft_split ch_slash body []) simple with
-    | Some segs => (mkG neg segs, true)
-    | None => (seg_init, false)
+    | Some segs => (mkG neg segs true, true)
+    | None => (seg_init, false)              (* Clear(): no segments, no separator characters *)
     end.
 
   Fixpoint seg_match_aux (segs : list (option sm)) (toks : list (list N)) (prefixOk : bool) : bool :=
@@ -409,7 +410,8 @@ Section Glue.
     end.
 
   Definition seg_match (g : segm) (s : list N) (prefixOk : bool) : bool :=
-    let r := seg_match_aux (g_segs g) (soft_split ch_slash s []) prefixOk in
+    let toks := if g_seps g then soft_split ch_slash s [] else (match s with [] => [] | _ => [s] end) in
+    let r := seg_match_aux (g_segs g) toks prefixOk in
     if g_negate g then negb r else r.
 
   Definition seg_unique (g : segm) : bool :=
